@@ -5,6 +5,8 @@ pub mod c04;
 pub mod c05;
 pub mod c06;
 pub mod c07;
+pub mod c08;
+pub mod c09;
 pub mod c12;
 pub mod c16;
 pub mod c17;
@@ -19,6 +21,8 @@ pub fn all() -> Vec<Box<dyn Property>> {
         Box::new(c05::C05),
         Box::new(c06::C06),
         Box::new(c07::C07),
+        Box::new(c08::C08),
+        Box::new(c09::C09),
         Box::new(c12::C12),
         Box::new(c16::C16),
         Box::new(c17::C17),
